@@ -112,3 +112,30 @@ func BasicViaPBF(in Input, cores int) (b6.World, error) {
 	}
 	return ingest.NewWorldFromOSMSource(pbfBytesSource{data}, &ingest.BuildOptions{Cores: cores})
 }
+
+// ReadBack decodes a serialised PBF into elements (what the file says, e.g.
+// with the writer's coordinate quantisation).
+func ReadBack(data []byte) (Input, error) {
+	var in Input
+	err := osm.ReadPBF(bytes.NewReader(data), func(e osm.Element) error {
+		switch e := e.(type) {
+		case *osm.Node:
+			in.Nodes = append(in.Nodes, e.Clone())
+		case *osm.Way:
+			in.Ways = append(in.Ways, e.Clone())
+		case *osm.Relation:
+			in.Relations = append(in.Relations, e.Clone())
+		}
+		return nil
+	})
+	return in, err
+}
+
+// BasicFromPBF / CompactFromPBF build the worlds from serialised bytes.
+func BasicFromPBF(data []byte, cores int) (b6.World, error) {
+	return ingest.NewWorldFromOSMSource(pbfBytesSource{data}, &ingest.BuildOptions{Cores: cores})
+}
+
+func CompactFromPBF(data []byte, cores int) (*compact.World, error) {
+	return compactFrom(pbfBytesSource{data}, cores)
+}
